@@ -158,3 +158,26 @@ MODELS[:0] = [
 
 # generic fallbacks (lowest priority)
 MODELS += [(r'^<.* as From<.*>>::from$', m_identity), (r'^<.* as Into<.*>>::into$', m_identity)]
+
+
+def m_tx_clone(ex, a, t): return TxObj(target(a[0]).ch)
+MODELS[:0] = [(r'^<(tokio::sync::mpsc::)?UnboundedSender<.*> as Clone>::clone$', m_tx_clone)]
+
+
+def m_fetch_update(ex, a, t):
+    # AtomicUsize::fetch_update(&self, set_order, fetch_order, f): apply f to the current value; Some(new) -> store, Ok(old); None -> Err(old)
+    at = target(a[0]); old = at.value.v
+    r = call_closure(ex, a[3], [old])
+    if r.variant == 'Some':
+        at.value.v = r.f[0].v; return Enum('Result', 'Ok', [old])
+    return Enum('Result', 'Err', [old])
+def m_ord_max(ex, a, t): return z3.If(z3.UGE(a[0], a[1]), a[0], a[1])
+def m_ord_min(ex, a, t): return z3.If(z3.ULE(a[0], a[1]), a[0], a[1])
+def m_sat_sub(ex, a, t): return z3.If(z3.UGE(a[0], a[1]), a[0] - a[1], z3.BitVecVal(0, a[0].size()))
+def m_res_unwrap(ex, a, t):
+    if a[0].variant != 'Ok': raise Panic('unwrap on Err')
+    return a[0].f[0].v
+def m_res_unwrap_or(ex, a, t): return a[0].f[0].v if a[0].variant == 'Ok' else a[1]
+MODELS[:0] = [(r'(?:^|::)Atomic(Usize)?(::<.*>)?::fetch_update::<', m_fetch_update),
+              (r'^<usize as Ord>::max$|^std::cmp::max::<usize>$|^core::cmp::Ord::max$', m_ord_max), (r'^<usize as Ord>::min$|^std::cmp::min::<usize>$', m_ord_min),
+              (r'num::<impl usize>::saturating_sub$', m_sat_sub), (r'(?:^|::)Result::<.*>::unwrap$', m_res_unwrap), (r'(?:^|::)Result::<.*>::unwrap_or$', m_res_unwrap_or)]
